@@ -274,6 +274,14 @@ class NestedChildren(WrappingQuery):
         self.child = subq
         self.boost = boost
 
+    def _rewrap(self, child):
+        return self.__class__(self.parents, child, boost=self.boost)
+
+    def field(self):
+        # The matches are the child documents of the parents the wrapped query
+        # matches, not the documents it matches in its field
+        return None
+
     def matcher(self, searcher, context=None):
         bits = searcher._filter_to_comb(self.parents)
         if not bits:
